@@ -19,7 +19,7 @@
 //!   result  L=<ok|ERR|PANIC> P=<ok|ERR|PANIC> B=<ERR|PANIC|entry:I[..]:J[..]> BB=<same|..> S=<run> X=<same|run>
 //!     I[..]  instructions "<opcode idx><operand>" with operand  - | n<k> | d<tree>  (data operands structurally)
 //!     run    OK v=<tree> r=<register depth> vs=<value stack depth> fr=<frames> n=<steps> c=[call;call;..]
-//!            | ERR:<noreg|other> c=[..] | LIMIT c=[..] | PANIC
+//!            | ERR:<noreg|other> (noreg: operand missing below the current frame) c=[..] | LIMIT c=[..] | PANIC
 //!     call   R<sym hex> | A<n>:<arg tree> | D<opcode idx>:<left tree>:<right tree>
 //!   oracle  toks=<tt idx,..> syms=<name>:<hex>,..
 use garnish_lang_compiler::build::build;
@@ -658,7 +658,15 @@ fn run_on<D: Store>(mut d: D, tokens: &Vec<LexerToken>, input: &V) -> (String, S
     loop {
         match execute_current_instruction(&mut d) {
             Err(e) => {
-                let kind = if e.get_message().starts_with("No references in register") { "noreg" } else { "other" };
+                // an operand is missing below the current frame: the runtime reports it itself, or
+                // SimpleGarnishData's pop_register reports that it reached the frame marker
+                let kind = if e.get_message().starts_with("No references in register")
+                    || format!("{:?}", e).contains("Popped StackFrame from registers")
+                {
+                    "noreg"
+                } else {
+                    "other"
+                };
                 return (b_str, format!("ERR:{} {}", kind, calls_of(&d)));
             }
             Ok(info) => {
